@@ -48,6 +48,10 @@ def programs(tier):
         "10 DATA \"A\x0bB\" , C\x1cD\n20 READ A$ , B$",
         '10 DIM A$ : A$ = "X" : PRINT A$',
         '10 DIM N$ , M$ ( 3 ) : N$ = "A" : M$ ( 1 ) = N$ : B$ = N$ + M$ ( 1 )',
+        '10 PRINT "A"\n20 GOTO 10\n40000 PRINT "B"',
+        '10 PRINT "A"\n32700 PRINT "B"',
+        '10 GOTO 32699\n32699 PRINT "B"',
+        '10 DIM A$ ( 5 ) , B$ , C$ , N$ ( 2 ) : C$ = B$ : A$ ( 1 ) = C$ : N$ ( 1 ) = "X" : D$ = C$',
     ]
     return progs
 
@@ -202,6 +206,13 @@ def check_one(src):
     base = conv()
     if base[0] != "ok":
         out["status"] = base[0]
+        # no option turns a refused program into an accepted one (or the other way round)
+        for name, kw in (("filter", dict(filter_unused_linenum=True)), ("init", dict(initialize_vars=False)), ("width", dict(default_width32=False)),
+                         ("deps", dict(output_dependencies=True, skip_procedure_headers=False)), ("strsize", dict(default_str_storage=40)), ("suffix", dict(add_suffix=False))):
+            o = conv(**kw)
+            out["pairs"] += 1
+            if o[0] != base[0] or (o[0] != "ok" and o[1] != base[1]):
+                out["sigs"].append((f"{name}:status:refused-program-accepted" if o[0] == "ok" else f"{name}:status:other-refusal", f"base options: {base}; with {kw}: {str(o)[:80]}"))
         out["stats"] = st.export()
         return out
     out["status"] = "ok"
@@ -288,6 +299,25 @@ def check_one(src):
                 d = [(x, y) for x, y in itertools.zip_longest(a, b) if x != y][:1]
                 sig(f"strsize:value-matters:size-{'below' if n < 32 else 'above'}-32", f"default_str_storage={n} is not the size-40 output with the number replaced: {d}")
                 break
+    # 5c. names with a configured size keep it whatever -s says (whether it is above or below the default in force)
+    if re.search(r"\bDIM\b", src):
+        from coco.b09.configs import CompilerConfigs, StringConfigs
+
+        def cfg():
+            return CompilerConfigs(string_configs=StringConfigs(strname_to_size={"A$()": 16, "B$": 45, "N$()": 100, "M$()": 33, "G$": 7}))
+
+        o64, o80 = conv(default_str_storage=64, compiler_configs=cfg()), conv(default_str_storage=80, compiler_configs=cfg())
+        obase = conv(compiler_configs=cfg())
+        out["pairs"] += 3
+        if o64[0] == "ok" and o80[0] == "ok" and obase[0] == "ok":
+            if o64[1].replace("STRING[64]", "STRING[80]") != o80[1]:
+                a, b = o64[1].replace("STRING[64]", "STRING[80]").split("\n"), o80[1].split("\n")
+                d = [(x, y) for x, y in itertools.zip_longest(a, b) if x != y][:1]
+                sig("strsize:configured-size-changes", f"with sizes configured for A$() B$ N$() M$() G$, -s 64 and -s 80 differ beyond the default-sized strings: {d}")
+            for n in (16, 45, 100, 33, 7):
+                if not (o64[1].count(f"STRING[{n}]") == o80[1].count(f"STRING[{n}]") == obase[1].count(f"STRING[{n}]")):
+                    sig("strsize:configured-size-lost", f"declarations with the configured size {n}: {obase[1].count(f'STRING[{n}]')} without -s, {o64[1].count(f'STRING[{n}]')} with -s 64, {o80[1].count(f'STRING[{n}]')} with -s 80")
+                    break
     # 5b. each option does the same thing whatever the other options are: the three text rules again from bases in which
     # one OTHER option is already changed (size 40 / pre-initialisation off / filtering on)
     b40, bz, bl = conv(default_str_storage=40), conv(initialize_vars=False), conv(filter_unused_linenum=True)
